@@ -227,6 +227,9 @@ def orderly_case(item):
         if wr.status != "exc" or not isinstance(
                 wr.exc, E.TLSClosedConnectionError):
             fails.append("%s write after close -> %r" % (who, wr))
+        if o["resumable"] and not ep.session.resumable:
+            fails.append("%s session no longer resumable after the refused "
+                         "write / empty read on the closed connection" % who)
     resumed = None
     if not fails and (sc.cache or sc.tickets or True):
         # actually resume (session id needs a cache; tickets need keys)
@@ -333,6 +336,51 @@ def alert_case(item):
     w2 = pair.write(reader, b"x")
     if w2.status != "exc":
         fails.append("write after alert did not raise: %r" % (w2,))
+    return sc.name, item[3:], fails, result
+
+
+def close_alert_case(item):
+    """One side calls close() (closeSocket False, so it waits for the peer's
+    close_notify); the peer answers with each kind of alert instead, or
+    with data followed by close_notify.  A fatal alert must be surfaced."""
+    idx, tier, seed, closer, ai, n_data = item
+    sc = scenarios(tier)[idx]
+    name, desc, level = ALERTS[ai]
+    pair, out = S.connect(sc, seed=seed)
+    fails = []
+    if not (out["C"].status == "ok" and out["S"].status == "ok"):
+        return sc.name, item[3:], ["handshake failed"], None
+    pair.drain()
+    peer = "S" if closer == "C" else "C"
+    cl, pe = pair.ep(closer), pair.ep(peer)
+    cl.closeSocket = False
+    inpipe = pair.world.s2c if closer == "C" else pair.world.c2s
+    unread = bool(inpipe.buf) or \
+        bool(getattr(cl.sock, "_read_buffer", b"")) or \
+        not cl._defragmenter.is_empty()
+    # the peer's answer is already in flight when close() starts to wait
+    for i in range(n_data):
+        pair.write(peer, b"in-flight-%d;" % i)
+    W.run_gen(pair.world, peer, pe._sendMsg(Alert().create(desc, level)))
+    r = pair.close(closer)
+    result = (r.status,) + (W.exc_sig(r.exc) if r.status == "exc" else ())
+    if name == "close_notify":
+        if r.status != "ok":
+            fails.append("close() answered by close_notify -> %r" % (result,))
+        elif not cl.session.resumable:
+            fails.append("session not resumable after orderly close")
+    elif level == AlertLevel.fatal:
+        if result != ("exc", "TLSRemoteAlert", desc, level):
+            fails.append("fatal %s received while closing surfaced as %r" % (
+                name, result))
+        if cl.session.resumable:
+            fails.append("session resumable after fatal alert while closing")
+    if not cl.closed:
+        fails.append("not closed after close()")
+    if fails and unread and sc.version >= (3, 4) and \
+            result[:3] == ("exc", "TLSLocalAlert", 10):
+        fails = ["[tls13-close-unread-post-handshake-message] " + f
+                 for f in fails]
     return sc.name, item[3:], fails, result
 
 
@@ -496,6 +544,30 @@ def run(res, tier, seed):
                           {"item": it, "fail": f, "result": result},
                           {"part": "alert", "scenario": name, "item": it})
     res.section("alerts_after_handshake", cases=len(items))
+    items = []
+    for i in range(len(scs)):
+        for closer in ("C", "S"):
+            for ai in range(len(ALERTS)):
+                for nd in (0, 1):
+                    items.append((i, tier, seed, closer, ai, nd))
+    for (name, it, fails, result) in pmap(close_alert_case, items):
+        res.count()
+        res.outcome(("close-alert", result))
+        for f in fails:
+            if f.startswith("[tls13-close-unread-post-handshake-message]"):
+                res.violation({"part": "close-alert",
+                               "tls13_close_with_unread_handshake_message":
+                               True}, {"item": it, "fail": f,
+                                       "result": result, "scenario": name},
+                              {"part": "close-alert", "scenario": name,
+                               "item": it})
+                continue
+            res.violation({"part": "close-alert", "scenario": name,
+                           "alert": ALERTS[it[1]][0], "what": f[:50]},
+                          {"item": it, "fail": f, "result": result},
+                          {"part": "close-alert", "scenario": name,
+                           "item": it})
+    res.section("alerts_while_closing", cases=len(items))
     items = []
     for i in range(len(scs)):
         for direction in ("c2s", "s2c"):
